@@ -45,6 +45,26 @@ def segLine (st : SegSt) (line : String) : SegSt × String :=
     | some es =>
       let (e, w, file) := st.w.append st.file es (parseFault fault)
       ({ st with w := w, file := file }, match e with | none => "ok" | some e => "err " ++ segErr e)
+  | "tear" :: mask :: ents =>
+    match ents.mapM parseEntry with
+    | none => (st, "bad-op")
+    | some es =>
+      let (e, w, after) := st.w.append st.file es .none
+      match e with
+      | some e => (st, "err " ++ segErr e)
+      | none =>
+        let wrOff := st.w.writeOffset
+        let wrLen := w.writeOffset - wrOff
+        let m := mask.toList
+        let before := st.file ++ zeros (after.length - st.file.length)
+        let nChunks := (wrLen + 7) / 8
+        let img := (List.range nChunks).foldl (fun img j =>
+          if m.getD (j % m.length) '0' == '1' then
+            let lo := wrOff + j * 8
+            let hi := min (lo + 8) (wrOff + wrLen)
+            writeAt img lo ((after.drop lo).take (hi - lo))
+          else img) before
+        ({ st with file := img, w := default }, "ok")
   | ["seal", fault] =>
     let (r, w, file) := st.w.forceSeal st.file (parseFault fault)
     ({ st with w := w, file := file }, match r with | .ok is => s!"ok {is}" | .error e => "err " ++ segErr e)
